@@ -1,6 +1,7 @@
 """C09 — NIST-curve keys are validated (DESIGN §5 C09: R09.1 … R09.5)."""
 from ..prov import get_an, pp, walk
 from ..tyutil import typenum_usize
+from .common import explicit_len_guard, is_incorrect_len_err, len_value
 from .. import booldec
 from .common import (result_outcome, all_ans, impl_bodies, aggregates_of, ctor_uses, where, ret_classes, closure_ret, hpke_variant, switch_edge,
                      is_ok_agg, is_err_agg)
@@ -52,6 +53,19 @@ def guard_of(a, facts, rule, rep, self_ty):
     """find `enforce_equal_len(expected, given)?`; returns (call block, ok_edge (switch block, target)) or None"""
     fn = a.body.key
     cs = a.calls(lambda c: c.get('key') == 'util::enforce_equal_len' or c['path'].endswith('::enforce_equal_len'))
+    eg = explicit_len_guard(a, facts) if not cs else None
+    if eg:
+        # the guard spelled out: `if encoded.len() != N { return Err(IncorrectInputLength(N, encoded.len())) }`
+        n_expected = output_size(facts, self_ty)
+        n_found = len_value(facts, eg['n'])
+        site = a.term_point(eg['switch'])
+        rep.check(n_found is not None and n_found == n_expected, rule, fn, 'guard-expected', '%s = %s' % (pp(eg['n']), n_found),
+                  'expected length = Self::OutputSize = %s' % n_expected, where(a, site))
+        rep.check(True, rule, fn, 'guard-given', 'len(p1) compared', 'given length = encoded.len()', where(a, site))
+        okr = bool(eg['ne_returns']) and all(is_incorrect_len_err(tt, eg['n'], 1, facts) for s, tt in eg['ne_returns'])
+        rep.check(okr, rule, fn, 'guard-propagated', [pp(tt)[:100] for s, tt in eg['ne_returns']],
+                  'a wrong length returns Err(IncorrectInputLength(OutputSize, encoded.len()))', where(a, site))
+        return eg['switch'], eg['eq_edge']
     if len(cs) != 1:
         rep.bad(rule, fn, 'length-guard', '%d call(s) of enforce_equal_len' % len(cs),
                 'exactly one exact-length guard before parsing', where(a))
